@@ -45,12 +45,16 @@ def plan(tier):
 
 
 @st.composite
-def cases(draw):
-    ops, G = gen.gen_model_ops(draw, FEAT)
+def cases(draw, dag=False):
+    if dag:
+        ops, G, _info = gen.gen_dag_model(draw, ncells=(4, 6), uncached=False, handled=False, lines=False)
+    else:
+        ops, G = gen.gen_model_ops(draw, FEAT)
     allcells = sorted({(tuple(op[1]), op[2]["name"]) for op in ops if op[0] == "new_cells"})
     n = min(len(allcells), draw(st.sampled_from([1, 2, 3, 3, 4, 4, 5, 5]))) if allcells else 0
     flagged = [list(map(list, [c[0]]))[0] + [c[1]] for c in draw(st.permutations(allcells))[:n]]
     sids = gen.all_ctx_ids(G)
+    EDITS_ = EDITS if not dag else ["set_ref", "set_ref", "set_mref", "set_mref", "set_cells_formula"]
     hist = []
     queries = []
     pinned = set()
@@ -83,7 +87,13 @@ def cases(draw):
                     for q in draw(st.permutations(queries))[:3]:
                         hist.append(q)
         else:
-            op = gen.gen_edit(draw, G, FEAT, kinds=EDITS)
+            op = gen.gen_edit(draw, G, FEAT, kinds=EDITS_)
+            if dag and op is not None and op[0] == "set_cells_formula":
+                # keep the DAG shape: only the constant term of a leaf-ish formula changes
+                sp = G.space(tuple(op[1]))
+                old = sp.cells[op[2]]
+                op = ["set_cells_formula", op[1], op[2], dict(old.as_dict(), expr=["bin", "+", old.expr,
+                                                                                   ["lit", draw(st.integers(1, 9))]])]
             if op is not None and gen.apply_edit_to_picture(G, op):
                 hist.append(op)
                 for q in draw(st.permutations(queries))[:3]:
@@ -92,7 +102,7 @@ def cases(draw):
 
 
 def strategy(tier):
-    return cases()
+    return st.one_of(cases(), cases(dag=True))
 
 
 def run_once(case, mask):
